@@ -1,6 +1,6 @@
 (* C13 — Secret key material leaves a handle only via insecure or encrypted
    paths.  Statements only; proofs in proofs/SecretsProofs.v; model in
-   model/Secrets.v on top of model/Untrusted.v (all 37 key types whose parsers
+   model/Secrets.v on top of model/Untrusted.v (all 39 key types whose parsers
    model/Untrusted.v transcribes, and the fallback key for every other URL).
    Material types are ALL natural numbers (proto3 enums are open); 3 and 4 are
    ASYMMETRIC_PUBLIC and REMOTE of proto/tink.proto (public_or_remote). *)
@@ -94,7 +94,7 @@ Theorem C13_write_no_secrets_iff :
 Proof. exact write_no_secrets_iff. Qed.
 Print Assumptions C13_write_no_secrets_iff.
 
-(* ---- every transcribed key type (37 of the 42 registered ones) ---- *)
+(* ---- every transcribed key type (39 of the 42 registered ones) ---- *)
 
 (* Which material a key object holds is decided by its type URL alone: for
    every handle the model accepts, the material type (and the prefix type) each
@@ -107,7 +107,7 @@ Theorem C13_material_is_decided_by_type_url :
 Proof. exact out_material_by_url. Qed.
 Print Assumptions C13_material_is_decided_by_type_url.
 
-(* the table: 15 symmetric, 10 private and 12 public key types; any other URL:
+(* the table: 15 symmetric, 12 private and 12 public key types; any other URL:
    the label *)
 Theorem C13_type_url_material_table :
   Forall (fun u => forall label, url_material u label = km_symmetric) symmetric_urls
@@ -118,7 +118,7 @@ Theorem C13_type_url_material_table :
 Proof. exact url_material_table. Qed.
 Print Assumptions C13_type_url_material_table.
 
-(* The parsers of 32 of the 37 types compare the label with the material of
+(* The parsers of 34 of the 39 types compare the label with the material of
    the type (all but HMAC, AES-CMAC, HKDF-PRF, HMAC-PRF, AES-CMAC-PRF): an
    accepted key of such a type is labelled with what it holds. *)
 Theorem C13_accepted_label_is_material :
@@ -127,7 +127,7 @@ Theorem C13_accepted_label_is_material :
 Proof. exact accepted_label_is_material. Qed.
 Print Assumptions C13_accepted_label_is_material.
 
-(* THE import theorem, for all 37 transcribed key types and the fallback key
+(* THE import theorem, for all 39 transcribed key types and the fallback key
    (this clause was REFUTED before /repo b141c20: the five parsers that ignore
    the label - HMAC, AES-CMAC, HKDF/HMAC/AES-CMAC PRF - let symmetric keys
    labelled ASYMMETRIC_PUBLIC or REMOTE through the no-secrets import): on a
@@ -285,39 +285,40 @@ Theorem C13_read_of_written_opens_the_ciphertext :
 Proof. exact read_of_written_opens_the_ciphertext. Qed.
 Print Assumptions C13_read_of_written_opens_the_ciphertext.
 
-(* Under the AEAD authenticity law - Decrypt succeeds only on outputs of
-   Encrypt under the same key and the same associated data - and provided the
-   ciphertext Write produced is not also an output of Encrypt under another key
-   or other associated data (a statement about Encrypt alone): reading it with
-   another key or other associated data is an error.  Derived through the
-   EncryptedKeyset framing (the reader recovers exactly the written ciphertext). *)
-Theorem C13_wrong_key_or_ad_rejected :
-  forall (L : stdlib) (K : Type)
-         (aead_enc : K -> bytes -> bytes -> bytes -> bytes) (aead_dec : K -> bytes -> bytes -> option bytes),
-    (forall k ct ad pt, aead_dec k ct ad = Some pt -> exists iv, ct = aead_enc k iv pt ad) ->
-    forall k k' h iv ad ad' b,
-      write_encrypted_binary (aead_enc k) h iv ad = Ok b ->
-      blen (encrypted_ct (aead_enc k) h iv ad) < 18446744073709551616 ->
-      (forall k0 iv0 pt0 ad0, aead_enc k0 iv0 pt0 ad0 = encrypted_ct (aead_enc k) h iv ad -> k0 = k /\ ad0 = ad) ->
-      (k' <> k \/ ad' <> ad) ->
-      read_encrypted L (aead_dec k') b ad' = Err.
-Proof. exact wrong_key_or_ad_rejected_enc. Qed.
-Print Assumptions C13_wrong_key_or_ad_rejected.
-
-(* the same relative to an arbitrary record [sealed] of the Encrypt calls made *)
-Theorem C13_wrong_key_or_ad_rejected_sealed :
+(* Wrong key or wrong associated data, in REDUCTION form (no law about the
+   AEAD): if the reader returns a handle under (k', ad') other than the pair
+   Write used, then the key-encryption AEAD opened the written ciphertext under
+   (k', ad') and the opened bytes are a keyset the reader accepts
+   (SecretsProofs2.opens_to_a_keyset) - a key / associated-data commitment
+   failure of the AEAD on this ciphertext.  Nothing here says the event cannot
+   happen: AES-GCM, ChaCha20-Poly1305 and AES-GCM-SIV are not committing, for
+   them it is excluded only computationally, for honestly chosen keys. *)
+Theorem C13_wrong_key_or_ad_read_is_commitment_failure :
   forall (L : stdlib) (K : Type)
          (aead_enc : K -> bytes -> bytes -> bytes -> bytes) (aead_dec : K -> bytes -> bytes -> option bytes)
-         (sealed : K -> bytes -> bytes -> bytes -> Prop),
-    (forall k ct ad pt, aead_dec k ct ad = Some pt -> sealed k ad pt ct) ->
-    forall k k' h iv ad ad' b,
-      write_encrypted_binary (aead_enc k) h iv ad = Ok b ->
-      blen (encrypted_ct (aead_enc k) h iv ad) < 18446744073709551616 ->
-      (forall k0 ad0 pt0, sealed k0 ad0 pt0 (encrypted_ct (aead_enc k) h iv ad) -> k0 = k /\ ad0 = ad) ->
-      (k' <> k \/ ad' <> ad) ->
-      read_encrypted L (aead_dec k') b ad' = Err.
-Proof. exact wrong_key_or_ad_rejected_auth. Qed.
-Print Assumptions C13_wrong_key_or_ad_rejected_sealed.
+         k k' h iv ad ad' b h',
+    write_encrypted_binary (aead_enc k) h iv ad = Ok b ->
+    blen (encrypted_ct (aead_enc k) h iv ad) < 18446744073709551616 ->
+    (k' <> k \/ ad' <> ad) ->
+    read_encrypted L (aead_dec k') b ad' = Ok h' ->
+    opens_to_a_keyset K aead_dec k' ad' (encrypted_ct (aead_enc k) h iv ad).
+Proof. exact wrong_key_or_ad_read_is_commitment_failure. Qed.
+Print Assumptions C13_wrong_key_or_ad_read_is_commitment_failure.
+
+(* Corollary under a hypothesis about THIS ciphertext only: if it does not open
+   under (k', ad') - or opens to bytes that are no keyset - the read is an
+   error. *)
+Theorem C13_wrong_key_or_ad_rejected_when_ciphertext_does_not_open :
+  forall (L : stdlib) (K : Type)
+         (aead_enc : K -> bytes -> bytes -> bytes -> bytes) (aead_dec : K -> bytes -> bytes -> option bytes)
+         k k' h iv ad ad' b,
+    write_encrypted_binary (aead_enc k) h iv ad = Ok b ->
+    blen (encrypted_ct (aead_enc k) h iv ad) < 18446744073709551616 ->
+    (aead_dec k' (encrypted_ct (aead_enc k) h iv ad) ad' = None
+     \/ forall pt, aead_dec k' (encrypted_ct (aead_enc k) h iv ad) ad' = Some pt -> decode_keyset pt = None) ->
+    read_encrypted L (aead_dec k') b ad' = Err.
+Proof. exact wrong_key_or_ad_rejected_when_ciphertext_does_not_open. Qed.
+Print Assumptions C13_wrong_key_or_ad_rejected_when_ciphertext_does_not_open.
 
 (* With the right key and associated data, for every AEAD whose Decrypt inverts
    Encrypt: the reader returns THE handle that was written - for every handle
@@ -389,37 +390,6 @@ Proof.
   rewrite skipn_app, Nat.sub_diag, skipn_all. reflexivity.
 Qed.
 
-Lemma toy_auth : forall k k' iv pt ad ad', (k' <> k \/ ad' <> ad) -> toy_dec k' (toy_enc k iv pt ad) ad' = None.
-Proof.
-  intros k k' iv pt ad ad' H. unfold toy_dec, toy_enc.
-  destruct (k =? k') eqn:E1; [|reflexivity]. apply N.eqb_eq in E1.
-  destruct (blen ad =? blen ad') eqn:E2; [|reflexivity]. apply N.eqb_eq in E2.
-  cbn [andb]. assert (L : length ad = length ad') by (unfold blen in E2; apply Nnat.Nat2N.inj; exact E2).
-  rewrite <- L, firstn_app, Nat.sub_diag, firstn_all, firstn_O, app_nil_r.
-  destruct (beq ad ad') eqn:E3; [|reflexivity]. apply beq_eq in E3. subst. destruct H; congruence.
-Qed.
-
-(* the toy AEAD also satisfies the authenticity law and never produces the
-   same ciphertext under two keys or two associated data *)
-Lemma toy_authentic : forall k ct ad pt, toy_dec k ct ad = Some pt -> exists iv, ct = toy_enc k iv pt ad.
-Proof.
-  intros k ct ad pt H. exists []. unfold toy_dec, toy_enc in *.
-  destruct ct as [|k' [|n rest]]; try discriminate.
-  destruct (k' =? k) eqn:E1; [|discriminate]. destruct (n =? blen ad) eqn:E2; [|discriminate].
-  cbn [andb] in H. destruct (beq (firstn (length ad) rest) ad) eqn:E3; [|discriminate].
-  apply N.eqb_eq in E1, E2. apply beq_eq in E3. inversion H; subst. f_equal. f_equal.
-  rewrite <- E3 at 1. symmetry. apply firstn_skipn.
-Qed.
-
-Lemma toy_no_collision : forall k0 iv0 pt0 ad0 k iv pt ad,
-  toy_enc k0 iv0 pt0 ad0 = toy_enc k iv pt ad -> k0 = k /\ ad0 = ad.
-Proof.
-  unfold toy_enc. intros k0 iv0 pt0 ad0 k iv pt ad H. inversion H as [[E1 E2 E3]]. split; [reflexivity|].
-  assert (L : length ad0 = length ad) by (unfold blen in E2; apply Nnat.Nat2N.inj; exact E2).
-  apply (f_equal (firstn (length ad0))) in E3. rewrite firstn_app, Nat.sub_diag, firstn_all, firstn_O, app_nil_r in E3.
-  rewrite L, firstn_app, Nat.sub_diag, firstn_all, firstn_O, app_nil_r in E3. exact E3.
-Qed.
-
 Definition ex13_keyset : bytes :=
   [8; 9]
   ++ [18; 13; 10; 5; 10; 1; 120; 24; 4; 16; 1; 24; 9; 32; 3]
@@ -428,14 +398,17 @@ Definition ex13_keyset : bytes :=
 (* a standard library that refuses everything (the examples need none of it) *)
 Definition ex13_std : stdlib :=
   mkStd (fun _ _ => false) (fun _ _ => None) (fun _ => []) (fun _ _ => None) (fun _ _ => [])
-        (fun _ _ _ _ _ => None) (fun _ _ _ _ _ _ _ _ => false).
+        (fun _ _ _ _ _ => None) (fun _ _ _ _ _ _ _ _ => false) (fun _ _ => []).
 Definition ex13_handle : handle :=
   Eval vm_compute in match read ex13_std ex13_keyset with Ok h => h | _ => [] end.
+
+Definition ex13_written : bytes :=
+  Eval vm_compute in match write_encrypted_binary (toy_enc 42) ex13_handle [] [1; 2] with Ok b => b | _ => [] end.
 
 Example C13_nonvacuous :
   let p := ex13_std in
   let h := ex13_handle in
-  exists b,
+  let b := ex13_written in
     read p ex13_keyset = Ok h
     /\ read_no_secrets p ex13_keyset = Err
     /\ write_no_secrets h = Err
@@ -447,7 +420,7 @@ Example C13_nonvacuous :
     /\ read_encrypted p (toy_dec 43) b [1; 2] = Err
     /\ read_encrypted p (toy_dec 42) b [1; 3] = Err.
 Proof.
-  cbv zeta. eexists.
+  cbv zeta.
   split; [vm_compute; reflexivity|].
   split; [vm_compute; reflexivity|].
   split; [vm_compute; reflexivity|].
@@ -492,13 +465,24 @@ Proof.
   eexists. split; [vm_compute; reflexivity|]. split; [repeat constructor|]. split; vm_compute; reflexivity.
 Qed.
 
-(* the hypotheses of C13_wrong_key_or_ad_rejected and C13_right_key_reads_the_handle
-   are met by the toy AEAD on the handle above *)
-Example C13_nonvacuous_aead_laws :
-  (forall k ct ad pt, toy_dec k ct ad = Some pt -> exists iv, ct = toy_enc k iv pt ad)
+(* The per-ciphertext hypothesis is met by the toy AEAD (which writes key and
+   associated data in clear - it is committing, real AEADs need not be), and
+   the reduction's event is REAL for an AEAD that commits to nothing: with
+   enc = identity and dec = Some, a reader with any other key and any other
+   associated data gets the handle. *)
+Definition enc0 (k : N) (iv pt ad : bytes) : bytes := pt.
+Definition dec0 (k : N) (ct ad : bytes) : option bytes := Some ct.
+Definition ex13_enc0_written : bytes :=
+  Eval vm_compute in match write_encrypted_binary (enc0 42) ex13_handle [] [1; 2] with Ok b => b | _ => [] end.
+
+Example C13_nonvacuous_wrong_key :
+  toy_dec 43 (encrypted_ct (toy_enc 42) ex13_handle [] [1; 2]) [1; 2] = None
+  /\ toy_dec 42 (encrypted_ct (toy_enc 42) ex13_handle [] [1; 2]) [1; 3] = None
   /\ (forall k iv pt ad, toy_dec k (toy_enc k iv pt ad) ad = Some pt)
-  /\ (forall k0 iv0 pt0 ad0, toy_enc k0 iv0 pt0 ad0 = encrypted_ct (toy_enc 42) ex13_handle [] [1; 2] -> k0 = 42 /\ ad0 = [1; 2]).
+  /\ (forall k iv pt ad, dec0 k (enc0 k iv pt ad) ad = Some pt)
+  /\ write_encrypted_binary (enc0 42) ex13_handle [] [1; 2] = Ok ex13_enc0_written
+  /\ read_encrypted ex13_std (dec0 43) ex13_enc0_written [9] = Ok ex13_handle.
 Proof.
-  split; [exact toy_authentic|]. split; [exact toy_correct|].
-  intros k0 iv0 pt0 ad0 H. unfold encrypted_ct in H. eapply toy_no_collision. exact H.
+  split; [vm_compute; reflexivity|]. split; [vm_compute; reflexivity|]. split; [exact toy_correct|].
+  split; [reflexivity|]. split; vm_compute; reflexivity.
 Qed.
